@@ -396,7 +396,9 @@ def decl_translation_tie(rep):
 
 def correspondence(rep, rng, tier):
     from .. import rdir
-    decl_translation_tie(rep)
+    if decl_translation_tie(rep):
+        from .. import cnir
+        cnir.section_decl_ir_v3(rep, rng, 300 if tier == 'quick' else 6000)
     rdir.enable(rep)
     _kdinit.init_section(rep)
     quick = tier == 'quick'
